@@ -374,7 +374,7 @@ theorem batchedF_full {α : Type} (n : Nat) (hn : 0 < n) : ∀ (f : Nat) (xs : L
             by_cases hlt : n < (x :: xs).length
             · exact hlt
             · exact absurd (List.drop_eq_nil_of_le (by omega)) hne
-          simp [List.length_take]; omega
+          rw [List.length_take]; omega
         · have := ih _ hl b (by rw [hr]; exact hb)
           exact this
 
